@@ -84,6 +84,8 @@ def bob(x):
 
 def _bi_box(b):
     from discopy import biclosed
+    if b["k"] == "box" and b.get("word"):
+        return specs.word_box("biclosed", b)
     if b["k"] == "box":
         box = biclosed.Box(b["name"], bty(b["cod"] if b.get("dag")
                                           else b["dom"]),
